@@ -7,6 +7,9 @@
      C10Pool   consensus messages (consistent histories + far-future / pruned / equivocating votes and
                certificates) -> real PoolImpl, every emitted event fed to a real Votor
      C10Votor  Votor with blockstore events / time-outs for extreme slots (u64 arithmetic: Model/Node64.v)
+     C10Prod   the REAL produce_slice_payload (cfg hook) on a scripted transaction source, compared with Model/Producer.v:
+               transaction count, buffer length, transactions consumed, which payloads ended up in the slice
+     C10Apr    the REAL apply_parent_ready (cfg hook), compared with Model/Producer.v
      C10Node   a real cluster (Alpenglow nodes over SimulatedNetwork) with a Byzantine validator and an outside
                attacker on all five interfaces: panics seen by the process-wide hook, finalized slots before /
                after the hostile phase, a repair request answered afterwards *)
@@ -22,6 +25,8 @@ Inductive c10case :=
 | C10Rep (c : c14case)
 | C10Pool (c : pcase) (votor_panics : N)
 | C10Votor (c : vcase)
+| C10Prod (id : N) (has_parent : bool) (txs : list N) (full : bool) (len count consumed : N) (lens : list N) (panicked : bool)
+| C10Apr (id : N) (optimistic received : N * N) (impl : option (option (N * N)))   (* None = panic; Some None = parent untouched *)
 | C10Node (id kind : N) (param : list N) (panicked : bool) (fin_mid fin_end : list N) (responder_ok : bool).
 
 Definition fl10 (b : bool) (f : N) : N := if b then f else 0.
@@ -84,9 +89,31 @@ Fixpoint all_gt (a b : list N) : bool :=      (* every node's finalized slot adv
   end.
 Definition node_expect_panic (kind : N) (param : list N) : bool :=
   match kind, param with
-  | 2, [p; k] => is_ppanic (produce_slice false (repeat p (N.to_nat k))) && is_ppanic (produce_slice true (repeat p (N.to_nat k)))
+  | 2, [p; k] => is_ppanic (produce_slice false (repeat p (N.to_nat k))) || is_ppanic (produce_slice true (repeat p (N.to_nat k)))
   | 3, [s] => snd (votor_step64 0 votor_init (VInvalidBlock s))
   | 4, [s1; h1; s2; h2] => match apply_parent_ready (s1, h1) (s2, h2) with AprPanic => true | _ => false end
+  | _, _ => false
+  end.
+
+(* ---- producer hooks ---- *)
+Definition prod_same (hp : bool) (txs : list N) (full : bool) (len count consumed : N) (lens : list N) (panicked : bool) : bool :=
+  match produce_slice hp txs with
+  | PPanic => panicked
+  | PFull l c k => negb panicked && full && (l =? len) && (c =? count) && (k =? consumed) && PoolRun.listN_eqb (accepted k txs) lens
+  | PTimeout l c k => negb panicked && negb full && (l =? len) && (c =? count) && (k =? consumed) && PoolRun.listN_eqb (accepted k txs) lens
+  end.
+(* the property on the implementation's own output: no panic, the slice fits, nothing above the limit got in,
+   the count is the number of transactions in the buffer and the buffer length is what they occupy *)
+Definition prod_ok (hp : bool) (len count : N) (lens : list N) (panicked : bool) : bool :=
+  negb panicked && (slice_payload_len hp len <=? MAX_DATA_PER_SLICE)
+  && forallb (fun p => p <=? MAX_TRANSACTION_SIZE) lens
+  && (count =? N.of_nat (length lens))
+  && (len =? 8 + fold_right (fun q a => tx_encoded q + a) 0 lens).
+Definition apr_same (o r : N * N) (impl : option (option (N * N))) : bool :=
+  match apply_parent_ready o r, impl with
+  | AprPanic, None => true
+  | AprKeep, Some None => true
+  | AprSwitch p, Some (Some q) => bid_eqb p q
   | _, _ => false
   end.
 
@@ -103,6 +130,13 @@ Definition run_c10 (c : c10case) : list (N * N * N) :=
   | C10Votor (VCase id stakes own init_t steps) =>
     (if PoolRun.listN_eqb init_t [0] then [] else [(id, 999999, 1)])
     ++ run_vsteps64 (mkEpoch stakes own) votor_init 0 steps id
+  | C10Prod id hp txs full len count consumed lens panicked =>
+    let fl := N.lor (fl10 (negb (prod_same hp txs full len count consumed lens panicked)) 1)
+                    (fl10 (negb (prod_ok hp len count lens panicked)) 2) in
+    if fl =? 0 then [] else [(id, 0, fl)]
+  | C10Apr id o r impl =>
+    let fl := N.lor (fl10 (negb (apr_same o r impl)) 1) (fl10 (match impl with None => true | _ => false end) 2) in
+    if fl =? 0 then [] else [(id, 0, fl)]
   | C10Node id kind param panicked fin_mid fin_end responder_ok =>
     let exp := node_expect_panic kind param in
     (* kind 4 depends on a race between block reconstruction and the ParentReady event at the next leader: the model
